@@ -118,12 +118,12 @@ def r2_write_last(c, facts):
         arms = P.try_arms(run, b, t)
         if arms:
             cont, brk = arms
-            if run.dominates(cont, wb) and wb not in run.reachable_from(brk):
+            if (run.dominates(cont, wb) or P.dominates_ok(run, cont, wb)) and not any(wb in run.reachable_from(x) for x in P.error_continuations(run, brk)):
                 c.ok(R, {'stage': name, 'write dominated by its success continuation': True})
             else:
                 c.bad(R, 'write-not-after:' + name, 'write_file is not dominated by the success continuation of ' + name)
         else:
-            if run.dominates(b, wb):
+            if run.dominates(b, wb) or P.dominates_ok(run, b, wb):
                 c.ok(R, {'stage': name, 'write dominated by (infallible) call': True})
             else:
                 c.bad(R, 'write-not-after:' + name, 'write_file is not dominated by ' + name)
@@ -141,7 +141,7 @@ def r2_write_last(c, facts):
         nq += 1
         if wb == b:
             continue
-        if wb in run.reachable_from(brk[0]):
+        if any(wb in run.reachable_from(x) for x in P.error_continuations(run, brk[0])):
             c.bad(R, 'write-reachable-from-error-arm', 'write_file is reachable from the error arm of a `?` in run() (line %s)' % t['ln'])
         elif cont and b in run.reachable_from(0, avoid=[wb]) and wb in run.reachable_from(cont[0]) or b in run.reachable_from(wt['target'] or wb):
             c.ok(R, {'try_line': t['ln'], 'write_unreachable_from_error_arm': True})
